@@ -32,6 +32,29 @@ theorem getI_le_maxI (l : List Int) (i : Nat) (h : i < l.length) : getI l i ≤ 
   apply le_maxI
   simp [getI, h]
 
+theorem foldl_min_le_init (l : List Int) (a : Int) : l.foldl min a ≤ a := by
+  induction l generalizing a with
+  | nil => simp
+  | cons x xs ih => simp only [List.foldl_cons]; have := ih (min a x); omega
+
+theorem foldl_min_le_mem (l : List Int) (a y : Int) (h : y ∈ l) : l.foldl min a ≤ y := by
+  induction l generalizing a with
+  | nil => cases h
+  | cons x xs ih =>
+    simp only [List.foldl_cons]
+    rcases List.mem_cons.1 h with rfl | h'
+    · have := foldl_min_le_init xs (min a y); omega
+    · exact ih _ h'
+
+theorem minI_le (l : List Int) (y : Int) (h : y ∈ l) : minI l ≤ y := by
+  cases l with
+  | nil => cases h
+  | cons x xs =>
+    simp only [minI]
+    rcases List.mem_cons.1 h with rfl | h'
+    · exact foldl_min_le_init xs y
+    · exact foldl_min_le_mem xs x y h'
+
 /-! ### sortI is a sorted permutation -/
 def Sorted (l : List Int) : Prop := l.Pairwise (· ≤ ·)
 def StrictSorted (l : List Int) : Prop := l.Pairwise (· < ·)
